@@ -33,6 +33,11 @@ NA = {
  "C46": "ignore patterns are compiled to regexps at run time from data; would need a symbolic regexp compiler (DESIGN 5, C46)",
  "C47": "drop/undrop of whole databases on a real file system (DESIGN 5, C47)",
 }
+NA.update({
+ "C20": "linearizability of ref updates quantifies over goroutine/process schedules of datas.database.update over a value store; the executor has no threads and the optimistic loop's state is a heap of prolly address maps (DESIGN 5, C20/C21); harness not built, not claimed",
+ "C21": "commit + working-set update: one store-root CAS over prolly address maps under concurrent writers and crash points (DESIGN 5, C20/C21); harness not built, not claimed",
+ "C28": "the property quantifies over schedules of concurrent sessions; the sequential kernel (SequenceTracker.Next/Set) needs a session, a provider and a working set behind validateBounds and go-mysql-server type conversion behind WithSQLValue (DESIGN 9.1); harness not built, not claimed",
+})
 NOT_BUILT = "within reach of the engine (DESIGN section 5) but the harness is not built; not claimed"
 
 checks, serves = [], []
